@@ -244,9 +244,9 @@ def lower_client(trace, blockers=()):
             if m == "shutdown":
                 out.append({"e": "retclose", "t": t})
         elif e == "sub" and ev.get("target", "socket") != "socket":
-            out.append({"e": "subapi", "t": t, "who": ev["who"], "target": ev["target"], "kind": ev["kind"]})
+            out.append({"e": "subapi", "t": t, "who": ev["who"], "target": ev["target"], "kind": ev["kind"], "incb": bool(ev.get("in_cb"))})
         elif e == "unsub" and ev.get("target", "socket") != "socket":
-            out.append({"e": "unsubapi", "t": t, "who": ev["who"], "target": ev["target"], "kind": ev["kind"]})
+            out.append({"e": "unsubapi", "t": t, "who": ev["who"], "target": ev["target"], "kind": ev["kind"], "incb": bool(ev.get("in_cb"))})
         elif e == "cb":
             out.append({"e": "cb", "t": t, "who": ev["who"], "id": ev["id"]})
         elif e == "snapshot":
